@@ -379,6 +379,37 @@ pub fn run(cfg: &Cfg) -> Stats {
                 }
             }
         }
+        // every number 0..=300 as first and as second colour, with and without leading zeros, and with an attribute around
+        for v in 0..=300u32 {
+            if !mine() {
+                continue;
+            }
+            for s in [format!("{v}"), format!("red {v}"), format!("{v} {v}"), format!("bold {v} nobold"), format!("0{v} 00{v}"), format!("{v} blue {v}"), format!("#{:02x}{:02x}{:02x} {v}", v % 256, (v * 7) % 256, (v * 13) % 256)] {
+                eval(&s, &mut st, true);
+            }
+        }
+        // zero padding of every length up to 70 digits (word-length thresholds), and values that only fit 0..=255 after
+        // wrapping at 2^8 / 2^16 / 2^32 / 2^64
+        for pad in 1..=70usize {
+            if !mine() {
+                continue;
+            }
+            let z = "0".repeat(pad);
+            for v in [0u32, 7, 42, 255, 256] {
+                for s in [format!("{z}{v}"), format!("red {z}{v}"), format!("red blue {z}{v}"), format!("{z}{v} ul {z}{v}")] {
+                    eval(&s, &mut st, true);
+                }
+            }
+        }
+        for base in [1u128 << 8, 1 << 16, 1 << 31, 1 << 32, 1 << 63, 1 << 64] {
+            for kk in 0..=255u128 {
+                if !mine() {
+                    continue;
+                }
+                eval(&format!("{}", base + kk), &mut st, true);
+                eval(&format!("red {}", base + kk), &mut st, true);
+            }
+        }
         // near-miss numbers
         for v in ["00", "007", "0255", "0256", "1000", "99999999999999999999", "+5", "+255", "-0", "-2", "--1", "1.0", "1e2", "0x10", "\u{ff11}", "١", "1 2 3", "#", "##000", "#0000000"] {
             if mine() {
@@ -409,7 +440,7 @@ pub fn run(cfg: &Cfg) -> Stats {
                 Err(p) => st.viol("c11:panic", format!("parse({:?}) panicked: {p}", s), Case::new("c11").b(s.as_bytes())),
             }
             // and a random sentence over the vocabulary (mostly invalid)
-            let nw = rng.range(0, 6);
+            let nw = if rng.chance(1, 10) { rng.range(6, 40) } else { rng.range(0, 6) };
             let mut t = String::new();
             for j in 0..nw {
                 if j > 0 {
